@@ -164,7 +164,8 @@ type build struct {
 var prevBuild = map[*simrt.Sim]build{} // per simulation: the build of the file written last
 
 // WriteCounterFile adds a counter file produced by the independent encoder to dir.
-// kind: 0 ordinary, 1 empty (no counters), 2 unreadable, 3 second file of a build, 4 recorded end not at midnight.
+// kind: 0 ordinary, 1 empty (no counters), 2 unreadable, 3 second file of a build, 4 recorded end not at midnight,
+// 5 no TimeEnd, 6 dates without a time of day, 7 empty TimeEnd (5-7: well-formed files whose week cannot be told).
 func WriteCounterFile(t *simrt.Tape, s *simrt.Sim, dir string, begin time.Time, days int, kind int) {
 	pp := ProgramPool[t.Draw(len(ProgramPool))]
 	gv := GoVersionPool[t.Draw(len(GoVersionPool))]
@@ -211,10 +212,22 @@ func WriteCounterFile(t *simrt.Tape, s *simrt.Sim, dir string, begin time.Time, 
 		endText = refcal.Date(bday+days) + []string{"T12:00:00Z", "T00:00:01Z", "T23:59:59Z"}[t.Draw(3)]
 		kind = 0
 	}
-	meta := refformat.MetaText([][2]string{
+	kv := [][2]string{
 		{"TimeBegin", refcal.RFC3339Midnight(bday)}, {"TimeEnd", endText},
 		{"Program", prog}, {"Version", ver}, {"GoVersion", gv}, {"GOOS", plat[0]}, {"GOARCH", plat[1]},
-	})
+	}
+	switch kind {
+	case 5: // a well-formed file that does not say when it ends: nobody can tell its week
+		kv = append(kv[:1], kv[2:]...)
+		kind = 0
+	case 6: // dates written without a time of day
+		kv[0][1], kv[1][1] = refcal.Date(bday), refcal.Date(bday+days)
+		kind = 0
+	case 7: // an empty end
+		kv[1][1] = ""
+		kind = 0
+	}
+	meta := refformat.MetaText(kv)
 	var pairs []refformat.Pair
 	if kind != 1 { // kind 1: empty file (no counters)
 		n := 1 + t.Draw(5)
